@@ -36,6 +36,8 @@ var ExtraConfig = []Seed{
 	{"comment-in-block-header", "blk /* c1 */ \"l\" /* c2 */ {\n  a = 1\n}\n"},
 	{"index-empty-string", "a = foo[\"\"]\nb = \"${foo[\"\"]}\"\n"},
 	{"splat-legacy", "a = foo.*.bar.0\nb = foo.*.0\n"},
+	{"flush-heredoc-nbsp", "a = <<-EOT\n\u00a0\u00a0x ${b}\n\u00a0\u00a0\u00a0y\n  EOT\n"},
+	{"escape-boundaries", "a = \"\\ud7ff\\ue000\\U0000d7ff\\U0010ffff\"\n"},
 	{"obj-key-tmpl", "a = {\n  \"${foo.bar}-n\" = bar\n  \"k${x.bar}\" : \"${baz.bar}\"\n}\n"},
 }
 
